@@ -94,8 +94,9 @@ def merge(results):
 
 
 def nontrivial(prop, cells):
-    """count distinct non-trivial cells: a cell is trivial when its state class is 'label' (fresh product of
-    basis labels) — the situation the unit tests already sample"""
+    """count distinct non-trivial cells.  Default rule: a cell is trivial when its state class is 'label' (fresh
+    product of basis labels) - the situation the unit tests already sample.  C13: trivial when no composite
+    envelope exists yet; C20: trivial when the world has fewer than two storage blocks (no bystander)."""
     n = 0
     for c in cells:
         try:
@@ -105,6 +106,10 @@ def nontrivial(prop, cells):
         if t is None:
             continue
         if isinstance(t, list) and "label" in t:
+            continue
+        if prop == "C13" and isinstance(t, list) and len(t) == 5 and t[-1] == 0:
+            continue
+        if prop == "C20" and isinstance(t, list) and len(t) == 6 and isinstance(t[3], int) and t[3] < 2:
             continue
         n += 1
     return n
